@@ -41,6 +41,11 @@ def literal_keys_read(f, dictname="results"):
 
 
 def run(ctx):
+    from ..shared import mutable_default_rule as _mutable_default_rule
+
+    # 'later solves never alter stored iterations' / 'fields ... that were current when iteration i was saved': nothing a
+    # simulation saves lives in an object shared with other calls or other simulations
+    ctx.attempt(_mutable_default_rule, ctx, "R15.15", lambda f: f.module.name.startswith(("EasyFEA.Simulations", "EasyFEA.Models")), 1)
     from ..shared import commit_idempotent_rule as _commit_idempotent_rule
 
     ctx.attempt(_commit_idempotent_rule, ctx, "R15.12")
